@@ -155,6 +155,41 @@ pub fn bool_program(r1: &str, l: &str, r2: &str, a: &BigUint, b: &BigUint) -> St
     )
 }
 
+/// One operand unknown (a parameter in a function, an input signal in a template), the other
+/// a literal: the shapes where absorbing / neutral element shortcuts would live.
+/// `side` 0: unknown op literal, 1: literal op unknown; `template` picks the kind of unknown.
+pub fn mixed_binop_program(op: &str, lit: &BigUint, side: usize, template: bool) -> String {
+    let u = if template { "in" } else { "n" };
+    let (l, r) = if side == 0 { (u.to_string(), "y".to_string()) } else { ("y".to_string(), u.to_string()) };
+    let (l2, r2) = if side == 0 { (format!("({u} + 1)"), lit.to_string()) } else { (lit.to_string(), format!("({u} + 1)")) };
+    let body = format!(
+        "    var y = {lit};\n    var z = {l} {op} {r};\n    var w = 0;\n    if (z == y) {{\n        w = 1;\n    }}\n    if (({l} {op} {r}) != z) {{\n        w = w + 2;\n    }}\n    var t = {l2} {op} {r2};\n    if (t == 0) {{\n        w = w + 4;\n    }}\n"
+    );
+    if template {
+        format!("template T(n) {{\n    signal input in;\n    signal output out;\n{body}    out <-- z + w + t;\n}}\n")
+    } else {
+        format!("function f(n) {{\n{body}    return z + w + t;\n}}\n")
+    }
+}
+
+/// Prefix operators and ternaries with unknown parts. `pos` 0: unknown condition, 1: unknown
+/// true branch, 2: unknown false branch, 3: `op unknown` for each prefix operator.
+pub fn mixed_ternary_program(pos: usize, a: &BigUint, b: &BigUint, template: bool) -> String {
+    let u = if template { "in" } else { "n" };
+    let expr = match pos {
+        0 => format!("{u} ? {a} : {b}"),
+        1 => format!("{a} ? {u} : {b}"),
+        2 => format!("{a} ? {b} : {u}"),
+        _ => format!("(-{u}) + (!{u}) + (~{u}) + {a} * 0 + {b} * 0"),
+    };
+    let body = format!("    var z = {expr};\n    var w = 0;\n    if (z == {a}) {{\n        w = 1;\n    }}\n    if (({expr}) == {b}) {{\n        w = w + 2;\n    }}\n");
+    if template {
+        format!("template T(n) {{\n    signal input in;\n    signal output out;\n{body}    out <-- z + w;\n}}\n")
+    } else {
+        format!("function f(n) {{\n{body}    return z + w;\n}}\n")
+    }
+}
+
 pub fn binop_symbols() -> Vec<&'static str> {
     ALL_BINOPS.iter().map(|o| o.symbol()).collect()
 }
